@@ -69,7 +69,7 @@ def handle (op : String) (a : Json) : Option R :=
   | "c11.writeTbl" => some do
       let rows ← (← getArr a "rows").toList.mapM (fun v => do
         pure (⟨← getS v "index", ← getSs v "ang", ← getSs v "trans", ← getS v "score"⟩ : TblRow))
-      pure (jS (writeTbl (← getS a "sampling") rows))
+      pure (jS (writeTblOpts (← optS a "name_prefix") (← getS a "sampling") (← optS a "size") rows))
   | "c11.readTbl" => some do
       let out ← liftE (readTbl (← getS a "text"))
       pure (jList (out.map (fun o => Json.mkObj [("trans", jSs o.trans), ("ang", jSs o.ang), ("score", jS o.score)])))
